@@ -87,12 +87,12 @@ def compare(flow, run, pred):
 
     def bad(p, m):
         hits.setdefault(p, []).append(m)
-    m = re.match(r"ERR=(.*) ; RES=(.*) ; CALLS=(.*) ; BLOCKED=(.*) ; OP=(.*) ; UNIQ=(.*) ; JOBS=(.*)$", pred)
+    m = re.match(r"ERR=(.*) ; RES=(.*) ; CALLS=(.*) ; BLOCKED=(.*) ; OP=(.*) ; UNIQ=(.*) ; PROV=(.*) ; JOBS=(.*)$", pred)
     perr, pres, pcalls, pblocked = m.group(1), m.group(2), m.group(3), m.group(4)
     if m.group(5) != "agree":
         bad("MODEL", "the operational model (FlowOpModel, canonical schedule) and the flow semantics (FlowSemModel) disagree: %s" % m.group(5))
-    if m.group(6) != "true":
-        bad("MODEL", "unique_providers_b is false on a flow the generator built as well-formed")
+    if m.group(6) != "true" or m.group(7) != "true":
+        bad("MODEL", "unique_providers_b / all_provided_b is false on a flow the generator built as well-formed (the hypotheses of the C02 theorems)")
     pcalls = [c for c in pcalls.split(";") if c]
     pblocked = set(b for b in pblocked.split(",") if b)
     called = [c.split("(")[0] for c in run["calls"]]
@@ -330,6 +330,7 @@ def observe(seed, tier):
         for fi, f in enumerate(flows):
             if fi % 3 == 0:
                 plan.append({"flow": f.name(), "label": "precancel", "conc": [1, 2, 0][fi % 3], "scenario": {}, "sleeps": {}, "precancel": True})
+        json.dump(plan, open(os.path.join(mod, "plan.json"), "w"))
         rc, out, err = common.run([exe], input=json.dumps(plan), check=False, timeout=3000)
         runs = [json.loads(l) for l in out.split("\n") if l.strip()]
         if rc != 0 or len(runs) != len(plan):
@@ -373,6 +374,8 @@ def observe(seed, tier):
                 hit(p, msgs[0], {"flow": f.model_line(), "go_function": f.name(), "scenario": run["scenario"], "conc": run["conc"],
                                  "observed": {k: run[k] for k in ("err", "results", "calls", "args", "events")},
                                  "model_prediction": pred, "all": msgs[:4], "module": mod})
+            if len(summary.setdefault("coqcases", [])) < (8 if quick else 60) and summary["executions"] % 7 == 0 and not run.get("precancel"):
+                summary["coqcases"].append([f.model_line(), {k: ("panic" if v.startswith("panic") else v) for k, v in run["scenario"].items() if v != "cancel"}, pred])
             if len(summary["samples"]) < 3 and run["label"] != "allok":
                 summary["samples"].append({"flow": f.model_line(), "scenario": run["scenario"], "observed_err": run["err"],
                                            "observed_calls": run["calls"], "model": pred})
@@ -388,6 +391,50 @@ def observe(seed, tier):
     with open(cpath, "w") as fh:
         json.dump(summary, fh)
     return summary
+
+
+def race_run(mod, key, limit):
+    """Builds the runner of an already generated module with the Go race detector and executes
+    the first `limit` entries of its plan. Returns {"executions", "races", "report", "during"}."""
+    cpath = os.path.join(common.CACHE, key + "-race.json")
+    if os.path.exists(cpath):
+        return json.load(open(cpath))
+    res = {"executions": 0, "races": 0, "report": "", "during": ""}
+    planp = os.path.join(mod, "plan.json")
+    if os.path.exists(planp):
+        plan = json.load(open(planp))[:limit]
+        exe = os.path.join(mod, "runner-race.bin")
+        rc, o, e = common.run(["go", "build", "-race", "-o", exe, "./cmd/runner"], cwd=mod, env=common.GOENV, check=False, timeout=1800)
+        if rc == 0:
+            env = dict(common.GOENV)
+            env["GORACE"] = "halt_on_error=0"
+            rc, out, err = common.run([exe], input=json.dumps(plan), env=env, check=False, timeout=3000)
+            res["executions"] = len([l for l in out.split("\n") if l.strip()])
+            res["races"] = err.count("WARNING: DATA RACE")
+            if res["races"]:
+                i = err.index("WARNING: DATA RACE")
+                res["report"] = err[i:i + 2500]
+                runs = [l for l in err[:i].split("\n") if l.startswith("RUN ")]
+                res["during"] = runs[-1] if runs else ""
+        else:
+            res["build_error"] = (o + e)[-500:]
+    with open(cpath, "w") as fh:
+        json.dump(res, fh)
+    return res
+
+
+def apply_race(chk, limit):
+    """C12: the generated plumbing (vN / pN variables, ran flags, Results copies) under the race detector"""
+    s = observe(chk.seed, chk.tier)
+    if not (s["cff_ok"] and s["build_ok"]):
+        return
+    key = "gen-%s-%s-%d-%s" % (common.repo_tree_hash(), _hash_sources(), chk.seed, chk.tier)
+    r = race_run(s["module"], key, limit)
+    chk.cov["evaluations"] += r["executions"]
+    chk.cov.setdefault("correspondence", {})["generated_flows_race_detector"] = {
+        "kind": "runner of the generated flows built with -race, executed on the scenario plan", "executions": r["executions"], "races": r["races"]}
+    if r["races"]:
+        chk.violate("the Go race detector reports a data race in generated Flow code during %s" % r["during"], {"report": r["report"], "during": r["during"], "module": s["module"]})
 
 
 def apply(chk, pid):
